@@ -7,9 +7,10 @@ import Verif.Driver.Cache
 import Verif.Driver.Wordlist
 import Verif.Driver.Cognates
 import Verif.Driver.GainLoss
+import Verif.Driver.TreeBuild
 open Verif.Driver
 
-def handlers : List (List (List String) → Option String) := [handleAlign, handleSC, handleCluster, handleTree, handleHeap, handleCache, handleWL, handleCog, handleGL]
+def handlers : List (List (List String) → Option String) := [handleAlign, handleSC, handleCluster, handleTree, handleHeap, handleCache, handleWL, handleCog, handleGL, handleTB]
 
 def dispatch (line : String) : String :=
   let fs := fields line
